@@ -95,7 +95,7 @@ func (b *byzState) highQC() hotstuff.QuorumCert {
 var byzActions = []string{
 	"honest-propose", "equivocate", "parent-not-certified", "fork-old-qc", "inflate-view", "relabel-qc", "repeated-signer-qc",
 	"newview-stale", "newview-forged-tc", "timeout-future", "timeout-foreign-sig", "timeout-garbage", "timeout-honest",
-	"double-vote", "multi-signer-vote", "vote-unknown-block", "vote-garbage", "aggqc-relabelled", "silence",
+	"syncinfo-mixed", "double-vote", "multi-signer-vote", "vote-unknown-block", "vote-garbage", "aggqc-relabelled", "silence",
 }
 
 func (c *Cluster) byzBatch(a *Actor) *clientpb.Batch {
@@ -296,6 +296,47 @@ func (c *Cluster) ByzAct(a *Actor, which string) {
 		si.SetQC(hq)
 		for _, o := range c.others(a) {
 			c.enqueue(a, o, hotstuff.NewViewMsg{ID: a.ID, SyncInfo: si})
+		}
+	case "syncinfo-mixed":
+		// every combination of genuine / forged / absent QC, TC and AggQC in one SyncInfo, sent as new-view and inside a
+		// timeout: a verifier that checks only the certificate which decides the view lets the other one through
+		own := hotstuff.NewBlock(hq.BlockHash(), hq, c.byzBatch(a), view, a.ID)
+		c.registerByzBlock(a, own)
+		si := hotstuff.NewSyncInfo()
+		switch c.Rng.Intn(5) {
+		case 0: // repeated-signer QC for an own block, labelled with an old view
+			if sig := c.sigRepeated(a, own.ToBytes(), q); sig != nil {
+				si.SetQC(hotstuff.NewQuorumCert(sig, hotstuff.View(c.Rng.Intn(int(min(view, 3))+1)), own.Hash()))
+			}
+		case 1: // genuine signatures of another block relabelled onto the own block
+			if hq.Signature() != nil {
+				si.SetQC(hotstuff.NewQuorumCert(hq.Signature(), hotstuff.View(c.Rng.Intn(int(min(view, 3))+1)), own.Hash()))
+			}
+		case 2: // genuine QC relabelled downwards
+			if hq.Signature() != nil && hq.View() > 0 {
+				si.SetQC(hotstuff.NewQuorumCert(hq.Signature(), hq.View()-1, hq.BlockHash()))
+			}
+		case 3: // genuine QC
+			si.SetQC(hq)
+		}
+		switch c.Rng.Intn(4) {
+		case 0, 1: // genuine (possibly stale) TC
+			if len(st.tcs) > 0 {
+				si.SetTC(st.tcs[c.Rng.Intn(len(st.tcs))])
+			}
+		case 2: // forged TC
+			if sig := c.sigRepeated(a, view.ToBytes(), q); sig != nil {
+				si.SetTC(hotstuff.NewTimeoutCert(sig, view))
+			}
+		}
+		if fhs && len(st.aggs) > 0 && c.Rng.Bool() {
+			si.SetAggQC(st.aggs[c.Rng.Intn(len(st.aggs))])
+		}
+		for _, o := range c.others(a) {
+			c.enqueue(a, o, hotstuff.NewViewMsg{ID: a.ID, SyncInfo: si})
+		}
+		if c.Rng.Bool() {
+			c.sendAll(a, signTimeout(view, si))
 		}
 	case "timeout-future":
 		c.sendAll(a, signTimeout(view+hotstuff.View(c.Rng.Range(1, 50)), siQC))
